@@ -76,6 +76,8 @@ STATEMENT_STATUS: Dict[str, str] = {
     "C02_chain_checked": "proved (round 6): same with the executable hypothesis chainOf evaluated per file (q.chain)",
     "C02_table_lists": "proved (round 6): SecLists derived for classic tables from the bytes read (any subsections holding the same pairs "
                        "as the writer's entry list); hypothesis sameAssocB evaluated per table (q.tablelists)",
+    "C02_stream_lists": "proved (round 6): SecLists derived for cross-reference streams (any non-overlapping /Index ranges, widths, rows); "
+                        "hypothesis streamListsB evaluated per stream (q.streamlists)",
     "C02_table_represents / C02_stream_represents": "proved (round 2): SecRep follows from what the writer wrote",
     "C02_row_types / C02_inuse_types / C02_objstm_index / C02_defaults / C02_literals":
         "proved (round 2) about definitions REGENERATED from the Python source (Gen/Xref.lean)",
@@ -880,6 +882,7 @@ def tie_case(ctx: C.Ctx, case: Dict[str, Any], data: bytes, layout: Dict[str, An
     ee_name = {" \n": "splf", "\r\n": "crlf", " \r": "spcr"}[case["entry_eol"]]
     twins = []
     tlists: List[str] = []
+    slists: List[str] = []
     for sec in layout["sections"]:
         for part in sec["parts"]:
             if part["kind"] == "table":
@@ -894,6 +897,9 @@ def tie_case(ctx: C.Ctx, case: Dict[str, Any], data: bytes, layout: Dict[str, An
             else:
                 q = "q.encrows %s %s" % (csv(part["w"]), ",".join("%d/%d/%d" % r[1:4] for r in part["rows"]) or "-")
                 twins.append((q, C.hx(part["data"])))
+                ia = part["index"] if part["index"] is not None else [0, part["size"]]
+                slists.append("q.streamlists %d %s %s" % (part["_sub"], csv(ia),
+                                                          ",".join("%d/%d/%d" % r[1:4] for r in part["rows"]) or "-"))
     qlines += [q for q, _ in twins]
     # the tail of the file (startxref / offset / %%EOF) as the Lean writer renders it: C02_find_xref_written
     xp = layout["startxref"]
@@ -902,7 +908,7 @@ def tie_case(ctx: C.Ctx, case: Dict[str, Any], data: bytes, layout: Dict[str, An
     qwritten = f"q.written 0 {bound}"
     qlines.append(qwritten)
     qlines.append("q.chain")
-    qlines += tlists
+    qlines += tlists + slists
     out = ctx.driver.ask(lines + qlines)
     inp = {"kind": "history", "case": case, "queries": queries}
     if any(o != "ok" for o in out[:nsetup]):
@@ -929,6 +935,11 @@ def tie_case(ctx: C.Ctx, case: Dict[str, Any], data: bytes, layout: Dict[str, An
         ctx.branch("hyp:tablelists:" + r[q])
         if r[q] != "true":
             ctx.disagree("q.tablelists", inp, "true", r[q])
+    # hypotheses of C02_stream_lists: ranges disjoint, in-use rows = the Lean writer's entry list, enough rows
+    for q in slists:
+        ctx.branch("hyp:streamlists:" + r[q].replace(" ", ",") + (":index-overshoot/self-stm" if special else ""))
+        if r[q] != "true true" and not special:
+            ctx.disagree("q.streamlists", inp, "true true", r[q])
     # hypothesis of C02_chain_checked: the file's sections form a chain of plain / hybrid revisions (circular /Prev of the
     # oldest revision included)
     selfprev = any(p.get("self_prev") for p in case["plans"])
